@@ -15,6 +15,8 @@
 #include <archive.h>
 #include <archive_entry.h>
 #include <pthread.h>
+#include <locale.h>
+#include <wchar.h>
 #include <stdio.h>
 #include <stdlib.h>
 #include <string.h>
@@ -430,11 +432,44 @@ static void entry_wl(dig *d)
 	archive_entry_free(e);
 }
 
+/* names through the wide-character accessors in a UTF-8 locale (main() selects C.UTF-8 when this workload is
+ * asked for).  Threads with an odd number first convert a name that ends in the middle of a character - that
+ * conversion fails, and has to fail without leaving anything behind that another conversion could see. */
+static void wname_wl(dig *d, int tid)
+{
+	static const char *good[] = { "b/plain.txt", "b/\346\227\245\346\234\254", "b/\342\202\254-price", "b/\305\201\303\263d\305\272" };
+	struct archive_entry *e = archive_entry_new();
+	size_t i, j;
+	if (tid & 1) {
+		archive_entry_copy_pathname(e, "caf\303");
+		(void)archive_entry_pathname_w(e);
+		archive_entry_clear(e);
+	}
+	for (i = 0; i < sizeof(good) / sizeof(good[0]); i++) {
+		const wchar_t *w;
+		archive_entry_copy_pathname(e, good[i]);
+		archive_entry_copy_symlink(e, good[(i + 1) % 4]);
+		w = archive_entry_pathname_w(e);
+		d_i64(d, w == NULL ? -1 : (int64_t)wcslen(w));
+		for (j = 0; w != NULL && w[j] != 0; j++) d_i64(d, (int64_t)w[j]);
+		w = archive_entry_symlink_w(e);
+		d_i64(d, w == NULL ? -1 : (int64_t)wcslen(w));
+		d->calls++;
+		archive_entry_clear(e);
+		if (tid & 1) {
+			archive_entry_copy_pathname(e, "x\342\202");
+			(void)archive_entry_pathname_w(e);
+			archive_entry_clear(e);
+		}
+	}
+	archive_entry_free(e);
+}
+
 /* ------------------------------------------------------------------ workload table */
 enum { W_USTAR, W_PAX, W_GNUTAR, W_CPIO, W_NEWC, W_ZIP, W_7ZIP, W_Z, W_TARGZ, W_LHA, W_ZFILE,
-       W_WRITE, W_WRZIP, W_WRPAX, W_DISK, W_DISKOLD, W_DISKWR, W_VERSION, W_ENTRY, W_DISKSHRINK, W_N };
+       W_WRITE, W_WRZIP, W_WRPAX, W_DISK, W_DISKOLD, W_DISKWR, W_VERSION, W_ENTRY, W_DISKSHRINK, W_WNAME, W_N };
 static const char *wnames[W_N] = { "ustar", "pax", "gnutar", "cpio", "newc", "zip", "7zip", "Z", "targz", "lha", "Zfile",
-       "write", "wrzip", "wrpax", "disk", "diskold", "diskwr", "version", "entry", "diskshrink" };
+       "write", "wrzip", "wrpax", "disk", "diskold", "diskwr", "version", "entry", "diskshrink", "wname" };
 
 static void run_workload(int w, dig *d, int tid, int iter)
 {
@@ -459,6 +494,7 @@ static void run_workload(int w, dig *d, int tid, int iter)
 	case W_VERSION: version_wl(d); break;
 	case W_ENTRY: entry_wl(d); break;
 	case W_DISKSHRINK: disk_shrink(d, tid); break;
+	case W_WNAME: wname_wl(d, tid); break;
 	}
 }
 
@@ -538,6 +574,7 @@ int main(int argc, char **argv)
 	case W_TARGZ: if (!in_targz.p) build(&in_targz, "pax", "gzip", 0, 1); break;
 	case W_LHA: if (argc < 7) die("lha file needed"); if (!in_lha.p) slurp(&in_lha, argv[6]); break;
 	case W_ZFILE: if (argc < 8) die(".Z file needed"); if (!in_Zfile.p) slurp(&in_Zfile, argv[7]); break;
+	case W_WNAME: if (setlocale(LC_CTYPE, "C.UTF-8") == NULL && setlocale(LC_CTYPE, "en_US.UTF-8") == NULL) die("no UTF-8 locale"); break;
 	case W_DISKOLD: old_kernel = 1; /* fallthrough */
 	case W_DISK: case W_DISKWR: case W_DISKSHRINK: prepare_dirs(conc ? k : 1); break;
 	}
